@@ -215,3 +215,74 @@ Proof.
               Hk Hpp Hpe Hlp Hh Hcc HA) as (q & Hq & _ & B).
   exists q. split; [exact Hq|]. split; [exact HA|exact B].
 Qed.
+
+(* ---------- on calculate_length itself ---------- *)
+
+(* the adjusting branch of calculate_length (zero seed): the new path is a
+   prefix of the old one plus the end point q; when the segment the cut falls
+   in is at least 2^-10 long and L - lengths[k-1] <= 2^20, q is within E16 of
+   the exact point and the exact polyline length of the new path within
+   alpha n * c + Ex + Ey of L *)
+Theorem calculate_length_ieee_bound (path : list Pos) (L : F64) path' lens :
+  D.lt D.zero L = true ->
+  keeps_natural (natural_len path D.zero) L = false ->
+  (last_two_equal path && D.gt L (natural_len path D.zero))%bool = false ->
+  (2 <= length path)%nat ->
+  calculate_length path (Some L) D.zero = Done (path', lens) ->
+  Forall (fun p => coord_le p 20) path -> segs_ok path -> (length path <= 2 ^ 50)%nat ->
+  poly_len (map R2 path) <= pw 1000 -> fin L ->
+  exists k pp pe lp c q,
+    (1 <= k < length path)%nat /\
+    nth_error path (Nat.pred k) = Some pp /\ nth_error path k = Some pe /\
+    nth_error (natural path D.zero) (Nat.pred k) = Some lp /\
+    nth_error (cumlen (map R2 path)) (Nat.pred k) = Some c /\
+    path' = firstn k path ++ [q] /\ lens = firstn k (natural path D.zero) ++ [L] /\
+    fin lp /\ B2R lp < B2R L /\ Rabs (c - B2R lp) <= alpha (length path) * c /\
+    (pw (-10) <= edist (R2 pp) (R2 pe) -> B2R L - B2R lp <= pw 20 ->
+     let Ex := E16 (Rabs (B2R (px pp))) (B2R L - B2R lp) in
+     let Ey := E16 (Rabs (B2R (py pp))) (B2R L - B2R lp) in
+     fin (px q) /\ fin (py q) /\
+     Rabs (B2R (px q) - fst (adjust_R (R2 pp) (R2 pe) (B2R L) (B2R lp))) <= Ex /\
+     Rabs (B2R (py q) - snd (adjust_R (R2 pp) (R2 pe) (B2R L) (B2R lp))) <= Ey /\
+     Rabs (poly_len (map R2 path') - B2R L) <= alpha (length path) * c + Ex + Ey).
+Proof.
+  intros HL Hkn Hd H2 H Hc Hs Hn Ht FL.
+  destruct (calculate_length_adjusts path L D.zero path' lens HL Hkn Hd H2 H)
+    as (_ & _ & k & q & Hk & Hp' & Hl & Hadj & (v & Hv & Hlt) & _).
+  change (Init.Nat.pred k) with (Nat.pred k) in *.
+  destruct (nth_error path (Nat.pred k)) as [pp|] eqn:Epp; [|apply nth_error_None in Epp; exfalso; clear - Epp Hk; lia].
+  destruct (nth_error path k) as [pe|] eqn:Epe; [|apply nth_error_None in Epe; exfalso; clear - Epe Hk; lia].
+  assert (Hlen : length (cumlen (map R2 path)) = length path).
+  { rewrite cumlen_length, map_length; [reflexivity|]. destruct path; [cbn in H2; exfalso; clear - H2; lia|discriminate]. }
+  destruct (nth_error (cumlen (map R2 path)) (Nat.pred k)) as [c|] eqn:Ec;
+    [|apply nth_error_None in Ec; exfalso; clear - Ec Hk Hlen; lia].
+  pose proof (natural_lengths_error path Hc Hs Hn Ht) as Hok.
+  destruct (lens_ok_nth _ _ _ _ _ _ Hok Hv Ec) as (Fv & Rv).
+  assert (Hlt' : B2R v < B2R L).
+  { unfold D.lt, flt in Hlt. rewrite (Bltb_correct 53 1024 v L Fv FL) in Hlt.
+    destruct (Rlt_bool_spec (B2R v) (B2R L)); [assumption|discriminate]. }
+  exists k, pp, pe, v, c, q.
+  assert (Hc0 : 0 <= c).
+  { assert (G : forall (l : list P2) (a : R), 0 <= a -> Forall (fun v => 0 <= v) (fst (cum_g Rplus edist a l))).
+    { induction l as [|x [|y r] IHl]; intros a0 Ha; try (cbn; constructor).
+      rewrite cum_g_cons2. cbn [fst]. pose proof (edist_ge0 x y). constructor; [lra|apply IHl; lra]. }
+    assert (G' : Forall (fun v => 0 <= v) (cumlen (map R2 path))) by (unfold cumlen; constructor; [lra|apply G; lra]).
+    rewrite Forall_forall in G'. apply G'. eapply nth_error_In; eauto. }
+  assert (HA : Rabs (c - B2R v) <= alpha (length path) * c).
+  { destruct Rv as (d & E & B). rewrite E. replace (c - c * (1 + d)) with (- (c * d)) by ring.
+    rewrite Rabs_Ropp, Rabs_mult, (Rabs_pos_eq c) by exact Hc0. rewrite Rmult_comm.
+    apply Rmult_le_compat_r; assumption. }
+  repeat (split; [first [assumption|reflexivity]|]).
+  intros HD HT Ex Ey.
+  assert (HT' : 0 <= B2R L - B2R v <= pw 20) by lra.
+  destruct (adjusted_length_ieee_bound_full path k L pp pe v c Hc Hs Hn Ht Hk Epp Epe Hv Ec FL HT' HD) as (q1 & Hq1 & _ & B1).
+  rewrite Hadj in Hq1. injection Hq1 as <-.
+  assert (Hh : adjust_hyps pp pe L v).
+  { rewrite Forall_forall in Hc.
+    destruct (Hc pp ltac:(eapply nth_error_In; eauto)) as (Bx0 & By0).
+    destruct (Hc pe ltac:(eapply nth_error_In; eauto)) as (Bx1 & By1).
+    repeat (split; [assumption|]). exact HD. }
+  destruct (adjust_end_ieee_bound path (natural path D.zero) k L pp pe v Epp Epe Hv Hh) as (q2 & Hq2 & Fx & Fy & Bx & By).
+  rewrite Hadj in Hq2. injection Hq2 as <-.
+  rewrite Hp'. repeat (split; [assumption|]). exact B1.
+Qed.
